@@ -10,6 +10,7 @@ import (
 	"sort"
 	"strings"
 	"sync"
+	"sync/atomic"
 	"time"
 
 	"golang.org/x/tools/go/ssa"
@@ -42,6 +43,7 @@ type FuncResult struct {
 }
 
 type VerifyOpts struct {
+	failed   *atomic.Bool
 	NoRetry  bool // trial run (rebinding search): short timeouts, no second attempt, no relaxed models
 	WorkDir  string
 	TimeoutS int
@@ -106,10 +108,12 @@ func (P *Program) verifyRebind(key string, opts *VerifyOpts, alias map[string]st
 			break
 		}
 		*trials++
-		if depth == 0 {
-			// trial runs: short timeouts and no retries; a binding under which everything discharges even so is accepted
+		{
+			// trial runs: short timeouts, no retries, stop at the first failed obligation; a binding under which
+			// everything discharges even so is accepted
 			o2 := *opts
 			o2.NoRetry = true
+			o2.failed = new(atomic.Bool)
 			if o2.TimeoutS > 5 {
 				o2.TimeoutS = 5
 			}
@@ -120,6 +124,18 @@ func (P *Program) verifyRebind(key string, opts *VerifyOpts, alias map[string]st
 			a2[k] = v
 		}
 		r2 := P.verifyRebind(key, opts, a2, depth+1, trials)
+		if os.Getenv("GOVC_DEBUG") != "" {
+			nbad := 0
+			for _, or := range r2.Results {
+				if or != nil && (or.Status == "refuted" || or.Status == "undischarged" || or.Status == "cover-vacuous") {
+					nbad++
+					if nbad <= 3 {
+						fmt.Fprintf(os.Stderr, "    failing: %s %s\n", or.Obl.Name, or.Status)
+					}
+				}
+			}
+			fmt.Fprintf(os.Stderr, "rebind trial %s: %v -> err=%v failing=%d (%d ms)\n", key, a2, r2.Err, nbad, r2.Millis)
+		}
 		if r2.Err != nil {
 			continue
 		}
@@ -144,12 +160,17 @@ func (P *Program) verifyRebind(key string, opts *VerifyOpts, alias map[string]st
 // localNames: the source-level names of the locals of a function (debug references, named phis and cells)
 func localNames(fn *ssa.Function) []string {
 	set := map[string]bool{}
+	declLine := map[string]int{}
 	for _, b := range fn.Blocks {
 		for _, in := range b.Instrs {
 			switch x := in.(type) {
 			case *ssa.DebugRef:
 				if id, ok := x.Expr.(*ast.Ident); ok && id.Name != "_" {
-					set[id.Name] = true
+					// only variables declared inside this function (not package functions, fields, globals)
+					if v, isVar := x.Object().(*types.Var); isVar && !v.IsField() && fn.Syntax() != nil && v.Pos() >= fn.Syntax().Pos() && v.Pos() <= fn.Syntax().End() {
+						set[id.Name] = true
+						declLine[id.Name] = fn.Prog.Fset.Position(v.Pos()).Line
+					}
 				}
 			case *ssa.Phi:
 				if x.Comment != "" && x.Comment != "rangeindex" {
@@ -170,6 +191,32 @@ func localNames(fn *ssa.Function) []string {
 		out = append(out, n)
 	}
 	sort.Strings(out)
+	// variables declared next to a loop first (loop invariants are where locals are named)
+	var loopLines []int
+	for _, b := range fn.Blocks {
+		if strings.Contains(b.Comment, "for.") || strings.Contains(b.Comment, "range") {
+			for _, in := range b.Instrs {
+				if in.Pos().IsValid() {
+					loopLines = append(loopLines, fn.Prog.Fset.Position(in.Pos()).Line)
+					break
+				}
+			}
+		}
+	}
+	score := func(n string) int {
+		best := 1 << 20
+		for _, l := range loopLines {
+			d := declLine[n] - l
+			if d < 0 {
+				d = -d
+			}
+			if d < best {
+				best = d
+			}
+		}
+		return best
+	}
+	sort.SliceStable(out, func(i, j int) bool { return score(out[i]) < score(out[j]) })
 	return out
 }
 
@@ -641,7 +688,22 @@ func safeName(s string) string {
 	return regexp.MustCompile(`[^A-Za-z0-9_.#@:-]`).ReplaceAllString(s, "_")
 }
 
-func (e *Enc) discharge(o *Obl, fkey string, opts *VerifyOpts) *OblResult {
+func (e *Enc) discharge(o *Obl, fkey string, opts *VerifyOpts) (r *OblResult) {
+	if opts.NoRetry && opts.failed != nil {
+		// trial run of the rebinding search: one failed obligation rejects the candidate, the rest is not run
+		if opts.failed.Load() {
+			return &OblResult{Obl: o, Func: fkey, Status: "undischarged", Solve: SolveResult{Status: "unknown", Backend: "skipped"}}
+		}
+		defer func() {
+			if r != nil && (r.Status == "refuted" || r.Status == "undischarged" || r.Status == "cover-vacuous") {
+				opts.failed.Store(true)
+			}
+		}()
+	}
+	return e.discharge0(o, fkey, opts)
+}
+
+func (e *Enc) discharge0(o *Obl, fkey string, opts *VerifyOpts) *OblResult {
 	r := &OblResult{Obl: o, Func: fkey}
 	file := filepath.Join(opts.WorkDir, safeName(o.Name)+".smt2")
 	r.File = file
